@@ -396,6 +396,38 @@ fn run_batch(c: &SchedCase) -> ExecOutcome {
     }
     o.cov(&format!("batch:{}", if n < 1024 { "below-limit" } else if n == 1024 { "at-limit" } else { "above-limit" }));
     o.ev("results", d.0);
+    // second part: the executor is dropped while n tasks are alive (parked, re-woken or never polled):
+    // every one of their futures must be dropped with it
+    let (ex2, sched_b) = executor::<u64>().expect("executor");
+    let tok = h.insert_source(ex2, |_, _, _: &mut (u64, u64)| {}).expect("insert");
+    let live: Vec<Arc<TaskShared>> = (0..n).map(|i| Arc::new(TaskShared { id: 10_000 + i, polls: AtomicU32::new(0), done_after: u32::MAX, waker: Mutex::new(None), dropped: AtomicU32::new(0) })).collect();
+    for t in &live {
+        sched_b.schedule(SFut { sh: t.clone() }).expect("schedule");
+    }
+    // a share of them gets polled (parked with a waker), a share of those is woken again, the rest was never polled
+    let style = c.case % 3;
+    if style != 0 {
+        for _ in 0..3 {
+            el.dispatch(Some(Duration::ZERO), &mut d).expect("dispatch");
+        }
+        if style == 2 {
+            for t in live.iter().step_by(2) {
+                if let Some(w) = t.waker.lock().unwrap().clone() {
+                    w.wake();
+                }
+            }
+        }
+    }
+    h.remove(tok);
+    let not_dropped = live.iter().filter(|t| t.dropped.load(Ordering::SeqCst) == 0).count();
+    let twice = live.iter().filter(|t| t.dropped.load(Ordering::SeqCst) > 1).count();
+    if not_dropped > 0 || twice > 0 {
+        o.alarm("drop_releases_all", "live-tasks-survive-executor-drop", format!("executor dropped with {} live tasks ({}): {} futures not dropped, {} dropped twice", n, ["never polled", "parked", "parked and half re-woken"][style as usize], not_dropped, twice));
+    }
+    if sched_b.schedule(async { 0 }).is_ok() {
+        o.alarm("drop_releases_all", "schedule-accepted-by-destroyed-executor", "schedule() succeeded after the executor was dropped".into());
+    }
+    o.cov(&format!("drop-with-live-tasks:{}", if n <= 1024 { "up-to-1024" } else { "more-than-1024" }));
     o.nontrivial = true;
     o
 }
